@@ -459,6 +459,15 @@ class Ref:
         self.val[si] = rawv & ((1 << self.sigs[si]["width"]) - 1)
         self.settle()
 
+    def poke(self, t, v):
+        """A testbench write through a structured target over input signals: exactly the addressed bits change."""
+        self.cur_chain = []
+        for k, b in enumerate(self.lbits(t)):
+            if b is not None:
+                si, bit = b
+                self.val[si] = (self.val[si] & ~(1 << bit)) | (((v >> k) & 1) << bit)
+        self.settle()
+
     def observe(self):
         return list(self.val)
 
